@@ -116,15 +116,14 @@ SubBegin(c, S) ==
     /\ UNCHANGED <<d, inp>>
 
 (* A rejection (nothing happens).  `named` = the names of the description the error message mentions.  Allowed only   *)
-(* when the request need not be served; when it is not computable the message must name a missing root argument and   *)
-(* no not-provided root argument that is not missing.                                                                *)
-NamesMissing(dd, S, I, named) ==
-    LET m == (named \cap RootNames(dd)) \ I IN m # {} /\ m \subseteq MissingNames(dd, S, I)
+(* when the request need not be served; when it is not computable (and has no other fault: a request that also        *)
+(* provides names nobody reads may be refused for those) the message must name a missing root argument.               *)
+NamesMissing(dd, S, I, named) == named \cap MissingNames(dd, S, I) # {}
 SubReject(S, named) ==
     LET I == PKeys(inp) IN
     /\ phase = "idle"
     /\ ~MustServe(d, S, I) \/ ~ValidSubRequest(d, inp, NeededSet(d, S, I))
-    /\ MustReject(d, S, I) => NamesMissing(d, S, I, named)
+    /\ (MustReject(d, S, I) /\ ~DontCare(d, S, I)) => NamesMissing(d, S, I, named)   \* the only fault is what is missing
     /\ UNCHANGED mvars
 
 (* "values of the full pipeline with I substituted": whenever the WHOLE pipeline can be run on inputs that extend the   *)
